@@ -74,8 +74,11 @@ func (e *ExecutorEngine) StartOperation(ctx context.Context, id string, payload 
 
 // StopSubscription will stop an active subscription.
 func (e *ExecutorEngine) StopSubscription(id string, eventHandler EventHandler) error {
-	e.subCancellations.Cancel(id)
-	eventHandler.Emit(EventTypeOnSubscriptionCompleted, id, nil, nil)
+	// Only an operation that is still active is completed here: if it has already ended (its
+	// own complete/error was sent) a second terminal message must not follow.
+	if e.subCancellations.Cancel(id) {
+		eventHandler.Emit(EventTypeOnSubscriptionCompleted, id, nil, nil)
+	}
 	return nil
 }
 
